@@ -80,10 +80,33 @@ where
       | [] => [[c]]
       | p :: ps => if c = '|' then [] :: p :: ps else (c :: p) :: ps
 
-/-- The regexp verdict the matchers see: computed for literal alternations,
-    taken from the harness (the real `regexp`) for every other pattern. -/
+/-- The anchored forms `^(lit|lit|…)$` and `^lit$`: the alternatives, one of
+    which the whole architecture must equal (`$` without the `m` flag is the
+    end of the text). -/
+def anchoredAlt (b : Str) : Option (List Str) :=
+  match b with
+  | '^' :: '(' :: rest =>
+    match rest.reverse with
+    | '$' :: ')' :: innerRev =>
+      if isLiteralAlt innerRev.reverse then some (altMatch.splitOnBar innerRev.reverse) else none
+    | _ => none
+  | '^' :: rest =>
+    match rest.reverse with
+    | '$' :: innerRev => if innerRev.all isLiteralChar then some [innerRev.reverse] else none
+    | _ => none
+  | _ => none
+
+/-- Is the pattern in the fragment the model evaluates itself? -/
+def reComputed (b : Str) : Bool := isLiteralAlt b || (anchoredAlt b).isSome
+
+/-- The regexp verdict the matchers see: computed for literal alternations
+    and their anchored forms, taken from the harness (the real `regexp`) for
+    every other pattern. -/
 def reVerdict (b a : Str) (re : Option Bool) : Option Bool :=
-  if isLiteralAlt b then some (altMatch b a) else re
+  if isLiteralAlt b then some (altMatch b a)
+  else match anchoredAlt b with
+    | some alts => some (alts.contains a)
+    | none => re
 
 def Vuln.archOK (v : Vuln) (p : Pkg) : Bool :=
   archCmp v.archOp p.arch v.pkgArch (reVerdict v.pkgArch p.arch v.re)
